@@ -53,7 +53,7 @@ def fault_entry(rng, kind, tab, used):
     if kind == "absent_stream":
         return "ghost_stream", "qartod", "gross_range_test", {"fail_span": [0, 1]}
     if kind == "raises":
-        return sid, "qartod", "_verif_raiser", {"tag": 1}
+        return sid, "qartod", "_verif_raiser", {"tag": rng.randint(0, 20)}
     raise ValueError(kind)
 
 
